@@ -480,6 +480,9 @@ func main() {
 		// alignment, multi-byte runes): with pages of 1 every id ends a page and becomes a token
 		awkward := []string{"?", "a?", "ab?", "~", "a~", "ab~", ">", "a>", "ab>", "Hot?", "~spare", "tea>milk", "ab¿", "k茶", "so🍵", "ÿÿÿ", "\x7f\x7f"}
 		idSets = append(idSets, awkward, awkward[:6], awkward[6:12], awkward[12:])
+		// long names: a page token carries the name its page ended with, however long that is
+		long := func(c string, n int) string { return strings.Repeat(c, n) }
+		idSets = append(idSets, []string{"a", long("k", 94), "m", long("k", 95), long("k", 200), "z"}, []string{long("p", 130), long("q", 1000)})
 		big := []int{49, 50, 51, 1001} // 1001: one more than the largest page a server hands out
 		if s.Thorough {
 			big = append(big, 60, 999, 1000)
